@@ -48,7 +48,7 @@ def balanced_escapes(rng, text):
     b = rng.randrange(a + 1, len(text))
     r = rng.random()
     if r < 0.4:
-        return text[:a] + E + ']8;;https://example.com/x' + rng.choice([E + '\\', '\x07']) + text[a:b] + E + ']8;;' + rng.choice([E + '\\', '\x07']) + text[b:]
+        return text[:a] + E + ']8;;' + rng.choice(['https://example.com/x', 'https://example.com/c/abcdef1234567', 'file:///tmp/deadbeef99/f']) + rng.choice([E + '\\', '\x07']) + text[a:b] + E + ']8;;' + rng.choice([E + '\\', '\x07']) + text[b:]
     if r < 0.7:
         return text[:a] + E + '[' + rng.choice(['31', '1;32', '38;5;208', '4']) + 'm' + E + ']8;;file:///tmp/f' + E + '\\' + text[a:b] + E + ']8;;' + E + '\\' + E + '[m' + text[b:]
     return text[:a] + E + '[' + rng.choice(['33', '7', '38;2;1;2;3']) + 'm' + text[a:b] + E + '[0m' + text[b:]
